@@ -52,7 +52,9 @@ def run(ck, ix, tier):
     fi_ne = ix.func(PQ, "PlainQuantity.__ne__")
     ck.analysed(fi_ne)
     src = norm(fi_ne.node)
-    ck.check("out = self.__eq__(other)" in src and "return not out" in src and "np.logical_not(out)" in src, "G-TWIN", "PlainQuantity.__ne__|negation-of-eq", fi_ne.loc(), "__ne__ negates __eq__", "__ne__ is no longer the negation of __eq__")
+    from .. import shape as _sh5
+    rets_ = [_sh5.rnorm(r.value, fi_ne.node) for r in _sh5.returns_of(fi_ne.node)]
+    ck.check(sorted(rets_) == ["not self.__eq__(other)", "np.logical_not(self.__eq__(other))"], "G-TWIN", "PlainQuantity.__ne__|negation-of-eq", fi_ne.loc(), "__ne__ negates __eq__", "__ne__ is no longer the negation of __eq__")
 
     # ------------------------------------------------------------ compare: order of checks
     fi = ix.func(PQ, "PlainQuantity.compare")
@@ -96,7 +98,9 @@ def run(ck, ix, tier):
     fu = ix.func(PU, "PlainUnit.compare")
     ck.analysed(fu)
     src = norm(fu.node)
-    ck.check("self_q = self._REGISTRY.Quantity(1, self)" in src and "self_q.compare(self._REGISTRY.Quantity(1, other), op)" in src and "self_q.compare(other, op)" in src, "G-TWIN",
+    rets_ = sorted(_sh5.rnorm(r.value, fu.node) for r in _sh5.returns_of(fu.node))
+    rets_ = [r for r in rets_ if r != "NotImplemented"]
+    ck.check(rets_ == ["self._REGISTRY.Quantity(1, self).compare(other, op)", "self._REGISTRY.Quantity(1, self).compare(self._REGISTRY.Quantity(1, other), op)"], "G-TWIN",
              "PlainUnit.compare|via-unit-quantities", fu.loc(), "units are ordered as 1*unit quantities", "Unit.compare no longer compares 1*self with 1*other")
 
     # ------------------------------------------------------------ hash granularity
@@ -110,7 +114,7 @@ def run(ck, ix, tier):
         for h in [c for c in walk_local(fi.node) if isinstance(c, ast.Call) and isinstance(c.func, ast.Name) and c.func.id == "hash"]:
             comps = h.args[0].elts if isinstance(h.args[0], ast.Tuple) else [h.args[0]]
             for c in comps:
-                s = norm(c)
+                s = norm(_sh5.unalias(c, fi.node))      # `m = base.magnitude` hoisted
                 allowed = s in (f"{b}.magnitude", f"{b}._magnitude", f"{b}.m", f"{b}.__class__", f"{b}.dimensionality", "self.dimensionality", f"type({b})", "self.__class__")
                 ck.check(allowed, "G-PROV", f"PlainQuantity.__hash__|hash-granularity|{s}", fi.loc(h),
                          f"`{s}` is a function of (base magnitude, dimensionality, class)",
